@@ -386,7 +386,7 @@ def gen_script(rng, interrupt=None):
     return {"vectors": vectors, "logl": logl, "logp": logp, "interrupt": interrupt}
 
 
-def gen_fit(rng, idx, kind="single", real=None, allow_arith=False):
+def gen_fit(rng, idx, kind="single", real=None, allow_arith=False, plain=False):
     tag = rng.choice([None, "t1", "t1", "t2", "data_7"])
     prefix = rng.choice([None, "pp", "pp", "pp/qq"])
     grid = None
@@ -395,7 +395,7 @@ def gen_fit(rng, idx, kind="single", real=None, allow_arith=False):
         dims = rng.choice([1, 1, 2])
         need_shared = dims
         grid = {"steps": 2, "shared": list(range(dims))}
-    model, nfree, arith = gen_model(rng, allow_arith=allow_arith, need_shared=need_shared, plain=real is not None)
+    model, nfree, arith = gen_model(rng, allow_arith=allow_arith, need_shared=need_shared, plain=plain or real is not None)
     interrupt = None
     if kind == "single" and real is None and rng.random() < 0.3:
         interrupt = rng.choice(["before_samples", "after_samples"])
@@ -417,6 +417,27 @@ def gen_fit(rng, idx, kind="single", real=None, allow_arith=False):
         f["scripts"] = [gen_script(rng) for _ in range(ncell)]
         if rng.random() < 0.25:
             f["scripts"][-1]["interrupt"] = "after_samples"
+    return f
+
+
+PREFIT_STAGES = ["model_info", "info", "info_partial", "info_unserialisable", "search", "search_partial",
+                 "model", "model_partial", "metadata"]
+STAGE_COQ = {"model_info": "AtModelInfo", "info": "AtInfo", "info_partial": "AtInfoPartial", "info_unserialisable": "AtInfoPartial",
+             "search": "AtSearch", "search_partial": "AtSearchPartial", "model": "AtModel", "model_partial": "AtModelPartial",
+             "metadata": "AtMetadata"}
+TRUNCATING = ("info_partial", "info_unserialisable", "search_partial", "model_partial")
+
+
+def gen_prefit_fit(rng, idx, stage, resume=False):
+    """a scripted single fit whose pre-fit output (DirectoryPaths.save_all) is interrupted at `stage`"""
+    f = gen_fit(rng, idx, plain=True)   # no model shape that is itself a recorded finding
+    f["scripts"][0]["interrupt"] = None
+    f["n_analyses"] = 1
+    f["layout"] = "folder"
+    f["name"] = "p%d" % idx
+    if stage in ("info", "info_partial") or (f.get("info") is not None and not f["info"]):
+        f["info"] = {"dataset": "d%d" % idx}
+    f["prefit"] = {"stage": stage, "resume": resume}
     return f
 
 
@@ -463,6 +484,8 @@ def gen_cases(ctx, classes):
     for k in range(nf):
         n = rng.randint(2, 4)
         fits = [gen_fit(rng, i, allow_arith=thorough and rng.random() < 0.05) for i in range(n)]
+        if thorough and rng.random() < 0.3:
+            fits.append(gen_prefit_fit(rng, n, rng.choice(PREFIT_STAGES)))
         scen.append({"kind": "scenario", "flavour": "fits", "fits": fits, "completed_only": rng.random() < 0.3})
     # (1b) one scenario per model class that is a recorded finding, always present
     specials = {
@@ -477,6 +500,24 @@ def gen_cases(ctx, classes):
         f["scripts"][0]["interrupt"] = None
         g = gen_fit(rng, 1)
         scen.append({"kind": "scenario", "flavour": "fits", "fits": [f, g], "completed_only": False})
+    # (1c) fits whose pre-fit output was interrupted at every point of save_all, beside healthy fits
+    stages = list(PREFIT_STAGES)
+    rng.shuffle(stages)
+    groups = [stages[:5], stages[5:]] if not thorough else [[st] for st in stages] + [stages[:4], stages[4:]]
+    for grp in groups:
+        fits = [gen_fit(rng, 0, plain=True)] + [gen_prefit_fit(rng, i + 1, st) for i, st in enumerate(grp)]
+        if rng.random() < 0.7:
+            fits.append(gen_fit(rng, len(fits), plain=True))
+        for f in (fits[0], fits[-1]):
+            if not f.get("prefit"):
+                f["scripts"][0]["interrupt"] = None
+        rng.shuffle(fits)
+        scen.append({"kind": "scenario", "flavour": "fits", "fits": fits, "completed_only": rng.random() < 0.2})
+    # (1d) the same interruption hitting a fit that is being RESUMED (metadata exists from the earlier run)
+    for st in (["search", "info_unserialisable"] if not thorough else PREFIT_STAGES):
+        fits = [gen_fit(rng, 0, plain=True), gen_prefit_fit(rng, 1, st, resume=True)]
+        fits[0]["scripts"][0]["interrupt"] = None
+        scen.append({"kind": "scenario", "flavour": "dir", "fits": fits, "completed_only": False})
     # (2) directories with grid searches / real search classes / copies: CDir
     for k in range(nd):
         fits = []
@@ -556,6 +597,9 @@ def case_classes(c):
         if f["search"]["cls"] != "Scripted":
             out.add("search-class:" + f["search"]["cls"])
         out |= model_labels(f["model"])
+        pf = f.get("prefit")
+        if pf and pf.get("resume") and pf["stage"] in TRUNCATING:
+            out.add("resumed-fit-truncated-json")
         if f["type"] == "grid":
             tags.append(f.get("tag"))
     if len(tags) != len(set(tags)):
@@ -606,7 +650,7 @@ def folder_of(e):
         "model": digest(rc["model"]) if rc.get("model") is not None else (e.get("model_digest") or ""),
         "info": info_digest(e["info"]) if isinstance(e.get("info"), dict) else None,
         "samples": samples_of(e),
-        "load_error": rc.get("load_error"),
+        "load_error": rc.get("load_error") or (rc.get("exc") if rc.get("exc") not in (None, "TypeError") else None),
         "jsons": json_names(e),
         "analyses": [sorted(a.get("json_digests", {}).keys()) for a in e.get("analyses", [])],
     }
@@ -697,7 +741,9 @@ def spec_of(f, rec, entry):
         "model": digest(rec["model"]), "info": info_digest(f.get("info")),
         "stored_model": digest(rc["model"]) if rc.get("model") is not None else digest(rec["model"]),
         "load_error": rc.get("load_error"),
-        "samples": samples, "interrupt": {None: "NoInterrupt", "before_samples": "BeforeSamples", "after_samples": "AfterSamples"}[sc.get("interrupt")],
+        "samples": samples,
+        "interrupt": ("(PreFit %s)" % STAGE_COQ[f["prefit"]["stage"]]) if f.get("prefit") else
+                     {None: "NoInterrupt", "before_samples": "BeforeSamples", "after_samples": "AfterSamples"}[sc.get("interrupt")],
         "extra": ["attr", "sub.deep"] if na == 1 else [], "analyses": [["attr", "sub.deep"]] * na if na > 1 else [],
     }
 
@@ -723,7 +769,7 @@ def coq_case(c, r):
     if c["kind"] != "scenario":
         return None
     entries = {e["rel"]: e for e in r["directory"]}
-    if c["flavour"] == "fits" and not c.get("copies"):
+    if c["flavour"] == "fits" and not c.get("copies") and not any((f.get("prefit") or {}).get("resume") for f in c["fits"]):
         specs, found, direct = [], [], []
         drows = {f["id"]: f for f in (r["direct"] or {}).get("fits", [])}
         for f, rec in zip(c["fits"], r["fits"]):
@@ -736,12 +782,13 @@ def coq_case(c, r):
             specs.append(s)
             found.append(c_folder(folder_of(e)) if e else c_folder(dict(folder_of({"rel": "MISSING", "metadata": False, "completed": False, "grid_marker": None, "parent_identifier": None}))))
             d = drows.get(rec["identifier"])
-            if f.get("n_analyses", 1) > 1 or (r.get("direct") or {}).get("exc") or "model:arith-prior" in model_labels(f["model"]):
+            if f.get("n_analyses", 1) > 1 or f.get("prefit") or (r.get("direct") or {}).get("exc") or "model:arith-prior" in model_labels(f["model"]):
                 direct.append("None")
             else:
                 direct.append("(Some %s)" % (c_row(row_of(d)) if d else c_row(DUMMY_ROW)))
         paths = ["/".join(spec_path(s)) for s in specs]
         walk = [paths.index(p) for p in r["scrape"]["walk_order"] if p in paths]
+        walk += [i for i in range(len(paths)) if i not in walk]   # folders the aggregator did not visit (no metadata)
         return "CFits %s %s %s %s %s %s" % (cbool(c.get("completed_only", False)), clist([c_spec(s) for s in specs]),
                                             clist([cnat(i) for i in walk]), clist(found), c_observed(r["scrape"]), clist(direct))
     # CDir: the directory as found by the independent inspection, in the aggregator's walk order
@@ -790,9 +837,23 @@ def oracle_scenario(c, r):
     for f, rec in zip(c["fits"], r["fits"]):
         if rec.get("exc") and f["search"]["cls"] == "Scripted":
             return "writing fit %s failed: %s %s" % (f["name"], rec["exc"], rec.get("msg"))
+        if f.get("prefit") and not rec.get("interrupted"):
+            return "harness: the pre-fit fault of fit %s was not injected" % f["name"]
     if sc.get("exc"):
         return "add_directory raised %s: %s" % (sc["exc"], sc.get("msg", "")[:160])
     rows = {f["id"]: f for f in sc["fits"]}
+    # the fits the CASE says are healthy must be there, whatever else lies in the directory; a fit whose
+    # pre-fit output never completed is not a search fit and must not appear
+    for f, rec in zip(c["fits"], r["fits"]):
+        if f["type"] != "single" or f["search"]["cls"] != "Scripted" or not rec.get("identifier"):
+            continue
+        pf = f.get("prefit")
+        complete = f["scripts"][0].get("interrupt") is None and not pf
+        if not pf and (complete or not co) and not (model_labels(f["model"]) & {"model:fixed-component", "model:arith-prior"}):
+            if rec["identifier"] not in rows:
+                return "healthy fit %s (%s) is missing from the database" % (f["name"], rec["identifier"])
+        if pf and not pf.get("resume") and rec["identifier"] in rows:
+            return "fit %s, whose pre-fit output was interrupted at %s, appears in the database" % (f["name"], pf["stage"])
     if len(rows) != len(sc["fits"]):
         return "duplicate ids in the database"
     outs = [e for e in r["directory"] if e["metadata"] and (not co or e["completed"])]
